@@ -222,3 +222,21 @@ def write_wfn(m):
     out.append("END DATA")
     out.append(f" TOTAL ENERGY =  {m['energy']:20.12f} THE VIRIAL(-V/T)={m['virial']:13.8f}")
     return "\n".join(out) + "\n"
+
+
+# ---------------------------------------------------------------------------------------- MOLDEN
+def write_molden(m):
+    """Minimal Molden file (Molden format description, sections [Atoms] <unit>, [GTO], [MO]).
+
+    m: unit header text ('AU', '(AU)', 'Angs', '(Angs)'), atoms [(Z, x, y, z)], one s primitive per atom."""
+    out = ["[Molden Format]", f"[Atoms] {m['unit']}"]
+    for i, (z, x, y, zz) in enumerate(m["atoms"]):
+        out.append(f"{NUM2SYM[z]:<3s} {i + 1:3d} {z:3d} {x:18.10f} {y:18.10f} {zz:18.10f}")
+    out.append("[GTO]")
+    for i in range(len(m["atoms"])):
+        out += [f"{i + 1:3d} 0", " s    1 1.00", "      1.2000000000      1.0000000000", ""]
+    out.append("[MO]")
+    out += [" Sym= A", " Ene= -0.5", " Spin= Alpha", " Occup= 2.0"]
+    for i in range(len(m["atoms"])):
+        out.append(f"{i + 1:4d} {0.7 if i == 0 else 0.1:18.10f}")
+    return "\n".join(out) + "\n"
